@@ -324,7 +324,138 @@ class ModuleNormalizer(object):
                 break
         self._const_pass(cls, fn)
         self._alias_pass(fn)
+        self._unroll_pass(fn)
+        self._attrcall_pass(fn)
         self._ifexp_pass(fn)
+
+    # ------------------------------------------------------------------ loops over literal tables, setattr / getattr with a literal name
+    MAX_UNROLL = 16
+
+    def _unroll_pass(self, fn):
+        """`for NAME in (c1, c2, ...): BODY` over a literal tuple / list of constants (or of equally long tuples of constants, with a tuple target) -- the shape a
+        block of repeated statements takes after "drive it from a table" -- is written out again: one copy of BODY per entry with the loop variables replaced by
+        the entry's constants.  Only when BODY neither rebinds the loop variables nor contains break / continue of this loop, and the loop has no else."""
+        norm = self
+
+        def const_row(e, n):
+            if n == 0:
+                return [e] if isinstance(e, ast.Constant) else None
+            if isinstance(e, (ast.Tuple, ast.List)) and len(e.elts) == n and all(isinstance(x, ast.Constant) for x in e.elts):
+                return list(e.elts)
+            return None
+
+        def own_level(stmts, kinds):
+            for st in stmts:
+                if isinstance(st, kinds):
+                    return True
+                if isinstance(st, (ast.For, ast.While, ast.FunctionDef, ast.ClassDef)):
+                    continue
+                for fld in ("body", "orelse", "finalbody"):
+                    blk = getattr(st, fld, None)
+                    if isinstance(blk, list) and blk and isinstance(blk[0], ast.stmt) and own_level(blk, kinds):
+                        return True
+                for h in getattr(st, "handlers", []) or []:
+                    if own_level(h.body, kinds):
+                        return True
+            return False
+
+        def unroll(st):
+            if not (isinstance(st, ast.For) and not st.orelse and isinstance(st.iter, (ast.Tuple, ast.List)) and 0 < len(st.iter.elts) <= norm.MAX_UNROLL):
+                return None
+            if isinstance(st.target, ast.Name):
+                names, width = [st.target.id], 0
+            elif isinstance(st.target, (ast.Tuple, ast.List)) and all(isinstance(x, ast.Name) for x in st.target.elts):
+                names, width = [x.id for x in st.target.elts], len(st.target.elts)
+            else:
+                return None
+            rows = [const_row(e, width) for e in st.iter.elts]
+            if any(r is None for r in rows):
+                return None
+            if own_level(st.body, (ast.Break, ast.Continue)) or set(names) & _stored_names(st.body):
+                return None
+            # a nested function / lambda / comprehension that captures the loop variable would see the LAST value after the loop: leave such loops alone
+            for n in ast.walk(ast.Module(body=st.body, type_ignores=[])):
+                if isinstance(n, (ast.Lambda, ast.FunctionDef, ast.GeneratorExp)) and any(isinstance(x, ast.Name) and x.id in names for x in ast.walk(n)):
+                    return None
+            # after the loop Python leaves the loop variables bound to the last entry: a later read of them (not re-bound by another loop / assignment
+            # first) would see that value -- leave such loops alone
+            if norm._read_after(fn, st, set(names)):
+                return None
+            out = []
+            for r in rows:
+                mapping = {nm: c for nm, c in zip(names, r)}
+                for b in copy.deepcopy(st.body):
+                    out.append(_Subst(mapping, {}).visit(b))
+            _set_lines(out, st.lineno)
+            for x in out:
+                ast.fix_missing_locations(x)
+            return out
+
+        def walk_block(stmts):
+            out = []
+            for st in stmts:
+                for fld in ("body", "orelse", "finalbody"):
+                    blk = getattr(st, fld, None)
+                    if isinstance(blk, list) and blk and isinstance(blk[0], ast.stmt) and not isinstance(st, (ast.FunctionDef, ast.ClassDef)):
+                        setattr(st, fld, walk_block(blk))
+                for h in getattr(st, "handlers", []) or []:
+                    h.body = walk_block(h.body)
+                u = unroll(st)
+                if u is not None:
+                    out.extend(u)
+                else:
+                    out.append(st)
+            return out
+        fn.body = walk_block(fn.body)
+
+    @staticmethod
+    def _read_after(fn, loop, names):
+        """is one of `names` loaded anywhere in fn outside `loop` other than inside a loop / comprehension that binds it itself?  (conservative)"""
+        inside = {id(n) for n in ast.walk(loop)}
+
+        def visit(n, bound):
+            if id(n) in inside and n is loop:
+                return False
+            if isinstance(n, ast.Name) and isinstance(n.ctx, ast.Load) and n.id in names and n.id not in bound:
+                return True
+            nb = bound
+            if isinstance(n, (ast.For, ast.comprehension)):
+                nb = bound | {x.id for x in ast.walk(n.target) if isinstance(x, ast.Name)}
+            if isinstance(n, (ast.ListComp, ast.SetComp, ast.DictComp, ast.GeneratorExp)):
+                for g in n.generators:
+                    nb = nb | {x.id for x in ast.walk(g.target) if isinstance(x, ast.Name)}
+            for c in ast.iter_child_nodes(n):
+                if visit(c, nb):
+                    return True
+            return False
+        return visit(fn, set())
+
+    def _attrcall_pass(self, fn):
+        """setattr(obj, 'name', v) as a statement -> obj.name = v ;  getattr(obj, 'name') -> obj.name   (literal, identifier-shaped names only)"""
+        local = _stored_names(fn.body) | {a.arg for a in ast.walk(fn) if isinstance(a, ast.arg)}
+        if "setattr" in local or "getattr" in local:
+            return
+
+        def ident(e):
+            return isinstance(e, ast.Constant) and isinstance(e.value, str) and e.value.isidentifier()
+
+        class T(ast.NodeTransformer):
+            def visit_Expr(self, n):
+                self.generic_visit(n)
+                c = n.value
+                if isinstance(c, ast.Call) and isinstance(c.func, ast.Name) and c.func.id == "setattr" and len(c.args) == 3 and not c.keywords and ident(c.args[1]):
+                    tgt = ast.Attribute(value=c.args[0], attr=c.args[1].value, ctx=ast.Store())
+                    return ast.copy_location(ast.Assign(targets=[tgt], value=c.args[2]), n)
+                return n
+
+            def visit_Call(self, c):
+                self.generic_visit(c)
+                if isinstance(c.func, ast.Name) and c.func.id == "getattr" and len(c.args) == 2 and not c.keywords and ident(c.args[1]):
+                    return ast.copy_location(ast.Attribute(value=c.args[0], attr=c.args[1].value, ctx=ast.Load()), c)
+                return c
+        for i, st in enumerate(fn.body):
+            fn.body[i] = T().visit(st)
+        ast.fix_missing_locations(fn)
 
     # ------------------------------------------------------------------ conditional expressions
     def _ifexp_pass(self, fn):
@@ -771,6 +902,13 @@ class ModuleNormalizer(object):
         if not body:
             body = [ast.Pass()]
         pre, mapping, rename = self._bind_params(s, call, callee, selfexpr, fn, body)
+        if len(body) == 1 and isinstance(body[0], ast.Return) and body[0].value is not None and not pre and not rename:
+            # an expression helper (`def is_closed(link): return link.status == Closed`) called with plain arguments: the call IS that expression
+            repl = _Subst(mapping, {}).visit(copy.deepcopy(body[0].value))
+            _set_lines([repl], s.lineno)
+            s2 = _ReplaceNode(call, repl).visit(s)
+            ast.fix_missing_locations(s2)
+            return [], s2
         new_body, _ = _tailify(body, ret)
         sub = _Subst(mapping, rename)
         new_body = [sub.visit(x) for x in new_body]
